@@ -426,7 +426,7 @@ def call_builtin(I, name, args, kwargs, node, frame):
 def call_builtin_method(I, recv, name, args, kwargs, node, frame):
     run = I.run
     recv = I.force(recv)
-    if not (isinstance(recv, VRef) and recv.kind in ("list", "dict", "set") and name in ("append", "add", "setdefault", "insert", "get", "pop", "update", "extend")):
+    if not (isinstance(recv, VRef) and recv.kind in ("list", "dict", "set") and name in ("append", "add", "setdefault", "insert", "get", "pop")):
         args = [I.force(a) for a in args]
     if isinstance(recv, VStr):
         return str_method(I, recv, name, args, kwargs)
@@ -700,6 +700,17 @@ def dict_method(I, ref, r, name, args, kwargs):
                     nsz = z3.Int(run.fresh_name("size!upd"))
                     run.assume(z3.And(nsz >= r.size, nsz >= sr.size, nsz <= r.size + sr.size))
                     r.size = nsz
+                    return NONE
+                if r.concrete and sr.dom is not None and all(isinstance(k_, VStr) for k_, _v in r.items.values()) and sr.ktype == ("str",):
+                    # concrete table updated from a symbolic one: the result is a symbolic dict whose key set is exactly the union
+                    # (values of the merged entries are left unconstrained: weaker, sound)
+                    nd = I.fresh(("dict", sr.ktype, sr.vtype), run.fresh_name("updated"))
+                    nrec = run.rec(nd.oid)
+                    k = z3.Const("k!upd", sr.dom.sort().domain())
+                    keys = [k_.t for k_, _v in r.items.values()]
+                    nrec.dom = z3.Lambda([k], z3.Or(z3.Select(sr.dom, k), *[k == kt for kt in keys]))
+                    run.heap[ref.oid] = nrec
+                    run.abstractions.append("values of a concrete dict updated from a symbolic dict are unconstrained")
                     return NONE
                 raise E.Unsupported("update from symbolic dict")
             for k, v in sr.items.values():
